@@ -885,7 +885,7 @@ func revocationFinalResult(certResults []*revocationresult.CertRevocationResult,
 			logger.Warnf("OCSP check failed with unknown error and fallback to CRL check for certificate #%d in chain with subject %q", (i + 1), cert.Subject)
 		}
 		for _, serverResult := range certResult.ServerResults {
-			if serverResult.Error != nil {
+			if serverResult != nil && serverResult.Error != nil {
 				// log individual server errors
 				if certResult.RevocationMethod == revocationresult.RevocationMethodOCSPFallbackCRL && serverResult.RevocationMethod == revocationresult.RevocationMethodOCSP {
 					// when the final revocation method is OCSPFallbackCRL,
